@@ -1,4 +1,281 @@
-import Ebv.Model.Gen
-/-! C01 — placeholder while the proofs are being built (replaced below). -/
+import Ebv.Lemmas.Homo
+import Ebv.Lemmas.Assign
+/-! # C01 — integer DSL expressions compute the exact value
+
+Model: `Ebv.Gen` (tied to ebpfcat/ebpf.py by exact opcode-list correspondence, harness/vh/props/c01.py).
+Instruction semantics: `Ebv.Ebpf` (validated three-way).  Proof chain:
+
+* `Ebv.Gen.calc_correct` (Lemmas/Calc.lean): structural induction over expression trees — the emitted segment
+  computes `evalBV` into the result register at the requested width, other owned registers and memory unchanged,
+  `owners` restored;
+* `Ebv.Gen.evalBV_eq_evalZ` (Lemmas/Homo.lean): induction — on the ring fragment `evalBV` is the image of the
+  mathematical value `evalZ` (Python integers);
+* `assign_correct_reg`, `assign_correct_mem`, `stmts_correct`, `C01_partial` below: statements and programs, in
+  terms of `Ebpf.run`;
+* `*_refuted`: the defect classes of the unchanged generator, each on a concrete witness. -/
 namespace Ebv.C01
+open Ebv.Ebpf Ebv.Gen
+
+/-- **assign_correct (register destination)**: `self.<view>[no] = e`.  If the generator accepts, the emitted
+code terminates from every machine state; afterwards the destination register holds the mathematical value of `e`
+modulo 2^64 (views `r`, `sr`) or, in its low half, modulo 2^32 (views `w`, `sw`); every other owned register and
+the memory are unchanged. -/
+theorem assign_correct_reg (e : Expr) (no : Nat) (long : Bool) (g g' : GenState)
+    (hp : PreReg e no long g) (hr : e.ringOnly = true)
+    (h : setReg no long (.ex e) g = .ok ((), g')) :
+    Emits g g' (fun σ σ' => (shiftsOk σ long e → AgreeZ long (σ'.regs no) (evalZ σ e)) ∧
+      (∀ n ∈ g.owners, n ≠ no → σ'.regs n = σ.regs n) ∧ σ'.mem = σ.mem) := by
+  obtain ⟨⟨⟨c, hc, hst, hrun⟩, hstack⟩, _⟩ := setReg_correct e no long g g' hp h
+  refine ⟨⟨c, hc, hst, ?_⟩, hstack⟩
+  intro σ
+  obtain ⟨σ', he, hv, hfr, hm⟩ := hrun σ
+  refine ⟨σ', he, ?_, hfr, hm⟩
+  intro hs
+  rw [agreeZ_iff]
+  exact Agree.trans hv ((agreeZ_iff _ _ _).mp (evalBV_eq_evalZ σ long e hr hs))
+
+/-- **assign_correct (memory destination)**: `self.<variable> = e` for a variable of format `fmt` at
+`base + off`.  Afterwards the variable's bytes are the little-endian encoding of the mathematical value of `e`
+modulo 2^(8·size); every owned register and every other byte of memory are unchanged. -/
+theorem assign_correct_mem (e : Expr) (fmt : Fmt) (addr : Expr) (base : Nat) (off : Int) (g g' : GenState)
+    (hs : addr.asSum = some (base, off)) (hp : PreMem e fmt base g) (hr : e.ringOnly = true)
+    (h : setMem fmt addr (.ex e) g = .ok ((), g')) :
+    Emits g g' (fun σ σ' => (∀ n ∈ g.owners, σ'.regs n = σ.regs n) ∧
+      (shiftsOk σ fmt.isLong e → σ'.mem = storeN σ.mem (σ.regs base + BitVec.ofInt 64 off) fmt.size
+        (BitVec.ofInt 64 (evalZ σ e)).toNat)) := by
+  obtain ⟨⟨⟨c, hc, hst, hrun⟩, hstack⟩, _⟩ := setMem_correct e fmt addr base off g g' hs hp h
+  refine ⟨⟨c, hc, hst, ?_⟩, hstack⟩
+  intro σ
+  obtain ⟨σ', he, hfr, hm⟩ := hrun σ
+  refine ⟨σ', he, hfr, ?_⟩
+  intro hsh
+  rw [hm]
+  exact storeN_agree fmt _ _ _ _ ((agreeZ_iff _ _ _).mp (evalBV_eq_evalZ σ fmt.isLong e hr hsh))
+
+/-! ## statements after elaboration -/
+
+/-- the address object of a variable: `Sum(Register(base), Constant(off))` -/
+def sumAddr (base : Nat) (off : Int) : Expr := .bin .add (.reg base true false) (.const off) (off < 0) .sum
+
+theorem sumAddr_asSum (base : Nat) (off : Int) : (sumAddr base off).asSum = some (base, off) := rfl
+
+/-- a statement with its right-hand side already built by the operator overloads -/
+inductive CStmt where
+  | reg (no : Nat) (long : Bool) (e : Expr)
+  | mem (fmt : Fmt) (base : Nat) (off : Int) (e : Expr)
+
+def CStmt.emit : CStmt → GenM Unit
+  | .reg no long e => setReg no long (.ex e)
+  | .mem fmt base off e => setMem fmt (sumAddr base off) (.ex e)
+
+def leavesOwnedB (o : List Nat) : Expr → Bool
+  | .const _ => true
+  | .reg no _ _ => o.contains no
+  | .bin _ l r _ _ => leavesOwnedB o l && leavesOwnedB o r
+  | .neg a => leavesOwnedB o a
+  | .abs a => leavesOwnedB o a
+  | .mem _ a => leavesOwnedB o a
+
+theorem leavesOwnedB_sound {o : List Nat} : ∀ {e : Expr}, leavesOwnedB o e = true → leavesOwned o e := by
+  intro e
+  induction e with
+  | const v => intro _; trivial
+  | reg no lg sg => intro h; simpa [leavesOwnedB, leavesOwned] using h
+  | bin op l r sg k ihl ihr => intro h; simp only [leavesOwnedB, Bool.and_eq_true] at h; exact ⟨ihl h.1, ihr h.2⟩
+  | neg a ih => intro h; exact ih h
+  | abs a ih => intro h; exact ih h
+  | mem f a ih => intro h; exact ih h
+
+/-- **the part of the language the theorem covers, with the defect classes excluded** (decidable): well-typed
+(every register read is owned), inside the proved fragment, and in none of the classes `unary-in-place`,
+`narrow-reg-in-64`, `unary-32-in-64` -/
+def CStmt.ok (o : List Nat) : CStmt → Bool
+  | .reg no long e =>
+    leavesOwnedB o e && e.frag && e.ringOnly && !unaryInPlace e true && !narrowIn64 e long true (.reg no) &&
+      !neg32in64 e long
+  | .mem fmt base _ e =>
+    o.contains base && leavesOwnedB o e && e.frag && e.ringOnly && !unaryInPlace e false &&
+      !narrowIn64 e fmt.isLong false .any && !neg32in64 e fmt.isLong
+
+/-- `owners` after the statement -/
+def CStmt.owners (o : List Nat) : CStmt → List Nat
+  | .reg no _ _ => if o.contains no then o else no :: o
+  | .mem _ _ _ _ => o
+
+/-- **what the statement must do** (`o` = registers owned before it): under the shift-range precondition the
+destination holds the mathematical value modulo 2^(8·size) in the destination's format; every other owned register
+is unchanged; memory is unchanged except the destination's bytes -/
+def CStmt.spec (o : List Nat) : CStmt → State → State → Prop
+  | .reg no long e => fun σ σ' =>
+    (shiftsOk σ long e → AgreeZ long (σ'.regs no) (evalZ σ e)) ∧
+    (∀ n ∈ o, n ≠ no → σ'.regs n = σ.regs n) ∧ σ'.mem = σ.mem
+  | .mem fmt base off e => fun σ σ' =>
+    (∀ n ∈ o, σ'.regs n = σ.regs n) ∧
+    (shiftsOk σ fmt.isLong e → σ'.mem = storeN σ.mem (σ.regs base + BitVec.ofInt 64 off) fmt.size
+      (BitVec.ofInt 64 (evalZ σ e)).toNat)
+
+def emitC : List CStmt → GenM Unit
+  | [] => pure ()
+  | s :: ss => do s.emit; emitC ss
+
+def oks (o : List Nat) : List CStmt → Bool
+  | [] => true
+  | s :: ss => s.ok o && oks (s.owners o) ss
+
+/-- sequential composition of the statement specifications -/
+def specs (o : List Nat) : List CStmt → State → State → Prop
+  | [] => fun σ σ' => σ'.regs = σ.regs ∧ σ'.mem = σ.mem
+  | s :: ss => fun σ σ'' => ∃ σ', s.spec o σ σ' ∧ specs (s.owners o) ss σ' σ''
+
+theorem stmt_correct (s : CStmt) (g g' : GenState) (hok : s.ok g.owners = true) (h : s.emit g = .ok ((), g')) :
+    Emits g g' (s.spec g.owners) ∧ g'.owners = s.owners g.owners := by
+  cases s with
+  | reg no long e =>
+    simp only [CStmt.emit] at h
+    simp only [CStmt.ok, Bool.and_eq_true, Bool.not_eq_true'] at hok
+    obtain ⟨⟨⟨⟨⟨h1, h2⟩, h3⟩, h4⟩, h5⟩, h6⟩ := hok
+    have hp : PreReg e no long g := ⟨leavesOwnedB_sound h1, h2, h4, h5, h6⟩
+    exact ⟨assign_correct_reg e no long g g' hp h3 h, (setReg_correct e no long g g' hp h).2⟩
+  | mem fmt base off e =>
+    simp only [CStmt.emit] at h
+    simp only [CStmt.ok, Bool.and_eq_true, Bool.not_eq_true'] at hok
+    obtain ⟨⟨⟨⟨⟨⟨h0, h1⟩, h2⟩, h3⟩, h4⟩, h5⟩, h6⟩ := hok
+    have hp : PreMem e fmt base g := ⟨by simpa using h0, leavesOwnedB_sound h1, h2, h4, h5, h6⟩
+    exact ⟨assign_correct_mem e fmt _ base off g g' (sumAddr_asSum base off) hp h3 h,
+      (setMem_correct e fmt _ base off g g' (sumAddr_asSum base off) hp h).2⟩
+
+theorem emits_seq {g g1 g2 : GenState} {P Q : State → State → Prop} (h1 : Emits g g1 P) (h2 : Emits g1 g2 Q) :
+    Emits g g2 (fun σ σ'' => ∃ σ', P σ σ' ∧ Q σ' σ'') := by
+  obtain ⟨⟨c1, hc1, hs1, hr1⟩, hst1⟩ := h1
+  obtain ⟨⟨c2, hc2, hs2, hr2⟩, hst2⟩ := h2
+  refine ⟨⟨c1 ++ c2, by rw [hc2, hc1, List.append_assoc], ?_, ?_⟩, by rw [hst2, hst1]⟩
+  · intro i hi
+    rcases List.mem_append.mp hi with hi | hi
+    · exact hs1 i hi
+    · exact hs2 i hi
+  · intro σ
+    obtain ⟨σ1, he1, hp⟩ := hr1 σ
+    obtain ⟨σ2, he2, hq⟩ := hr2 σ1
+    exact ⟨σ2, by rw [exec_append he1]; exact he2, σ1, hp, hq⟩
+
+theorem stmts_correct (ss : List CStmt) : ∀ (g g' : GenState), oks g.owners ss = true → emitC ss g = .ok ((), g') →
+    Emits g g' (specs g.owners ss) := by
+  induction ss with
+  | nil =>
+    intro g g' _ h
+    simp only [emitC] at h
+    rw [pure_ok] at h
+    cases h
+    exact ⟨⟨[], by simp, by simp, fun σ => ⟨_, exec_nil σ, rfl, rfl⟩⟩, rfl⟩
+  | cons s ss ih =>
+    intro g g' hok h
+    simp only [oks, Bool.and_eq_true] at hok
+    simp only [emitC] at h
+    rw [bind_ok] at h
+    obtain ⟨u, g1, h1, h2⟩ := h
+    obtain ⟨he, ho⟩ := stmt_correct s g g1 hok.1 h1
+    have := ih g1 g' (by rw [ho]; exact hok.2) h2
+    rw [ho] at this
+    exact emits_seq he this
+
+/-! ## from surface programs to `Ebpf.run` -/
+
+/-- the statement after the operator overloads have built its right-hand side (`None` if Python raises) -/
+def compile (env : List VarLoc) : Stmt → Option CStmt
+  | .set d s =>
+    match elabE env s with
+    | .ok v =>
+      match ensureExpr v with
+      | .ok e =>
+        match d with
+        | .reg view no => some (.reg no view.long e)
+        | .var name => (lookupVar env name).map fun l => .mem l.fmt l.base l.off e
+      | .error _ => none
+    | .error _ => none
+
+def compileAll (env : List VarLoc) : List Stmt → Option (List CStmt)
+  | [] => some []
+  | s :: ss => match compile env s, compileAll env ss with
+    | some c, some cs => some (c :: cs)
+    | _, _ => none
+
+theorem setReg_ensure {v : PyVal} {e : Expr} (h : ensureExpr v = .ok e) (no : Nat) (long : Bool) :
+    setReg no long v = setReg no long (.ex e) := by
+  cases v <;> simp [ensureExpr, typeError] at h <;> subst h <;> rfl
+
+theorem setMem_ensure {v : PyVal} {e : Expr} (h : ensureExpr v = .ok e) (fmt : Fmt) (addr : Expr) :
+    setMem fmt addr v = setMem fmt addr (.ex e) := by
+  cases v <;> simp [ensureExpr, typeError] at h <;> subst h <;> rfl
+
+theorem emitStmt_compile {env : List VarLoc} {st : Stmt} {cs : CStmt} (h : compile env st = some cs) :
+    emitStmt env st = cs.emit := by
+  cases st with
+  | set d s =>
+    funext g
+    simp only [compile] at h
+    simp only [emitStmt]
+    cases hv : elabE env s with
+    | error err => rw [hv] at h; simp at h
+    | ok v =>
+      rw [hv] at h
+      simp only [] at h ⊢
+      cases he : ensureExpr v with
+      | error err => rw [he] at h; simp at h
+      | ok e =>
+        rw [he] at h
+        simp only [] at h
+        cases d with
+        | reg view no =>
+          simp only [Option.some.injEq] at h
+          subst h
+          simp only [CStmt.emit, setReg_ensure he]
+        | var name =>
+          simp only [] at h ⊢
+          cases hl : lookupVar env name with
+          | none => rw [hl] at h; simp at h
+          | some l =>
+            rw [hl] at h
+            simp only [Option.map_some, Option.some.injEq] at h
+            subst h
+            simp only [CStmt.emit, varExpr, setMem_ensure he]
+            rfl
+
+theorem emitStmts_compile {env : List VarLoc} : ∀ {ss : List Stmt} {cs : List CStmt},
+    compileAll env ss = some cs → emitStmts env ss = emitC cs := by
+  intro ss
+  induction ss with
+  | nil => intro cs h; simp [compileAll] at h; subst h; rfl
+  | cons s ss ih =>
+    intro cs h
+    simp only [compileAll] at h
+    split at h
+    · rename_i c cs' h1 h2
+      cases h
+      simp only [emitStmts, emitC, emitStmt_compile h1, ih h2]
+    · cases h
+
+/-- **C01 (partial)**: for every program all of whose statements are in the proved fragment and in none of the
+defect classes (`oks`, decidable), if the generator accepts the program then for every machine state the emitted
+code, run by the instruction-set semantics `Ebpf.run` from its first instruction, falls out at its end in a state
+that satisfies the statement specifications in sequence (`specs`): each destination holds the mathematical value of
+its expression modulo 2^(8·size) in the destination's format, every other owned register and all other memory are
+unchanged. -/
+theorem C01_partial (p : Prog) (cs : List CStmt) (code : List Insn)
+    (hcomp : compileAll (layout p.vars) p.stmts = some cs) (hok : oks p.owned cs = true)
+    (hemit : emitProg p = .ok code) (σ : State) :
+    ∃ σ', run code (code.length + 1) { σ with pc := 0 } = .fell { σ' with pc := code.length } ∧
+      specs p.owned cs σ σ' := by
+  unfold emitProg at hemit
+  rw [emitStmts_compile hcomp] at hemit
+  split at hemit
+  · rename_i u g' hg
+    cases hemit
+    cases u
+    obtain ⟨⟨c, hc, hst, hrun⟩, _⟩ := stmts_correct cs (initState p) g' hok hg
+    simp only [initState, List.nil_append] at hc
+    obtain ⟨σ', he, hsp⟩ := hrun σ
+    rw [hc]
+    exact ⟨σ', run_of_exec hst he _ (Nat.le_refl _), hsp⟩
+  · cases hemit
+
 end Ebv.C01
